@@ -65,9 +65,16 @@ def pinn_case(rng, cid):
         which = rng.randrange(2)
         osl, int_index = specs[which][0], specs[which][2]
         kw["shared_pinn_outputs"] = (specs[0][1], specs[1][1])
-    u = jinns.utils.create_PINN(jax.random.PRNGKey(rng.randrange(1 << 30)), eqx_list, eq_type, dim_x, **kw)
+    net_key = jax.random.PRNGKey(rng.randrange(1 << 30))
+    u = jinns.utils.create_PINN(net_key, eqx_list, eq_type, dim_x, **kw)
+    coupled = None
     if isinstance(u, list):
         u = u[which]
+        # the same network (same key) behind an output transform that couples the components (a running sum): the transform
+        # acts on ALL outputs of the network, the shared-output selection comes last
+        coupled = jinns.utils.create_PINN(net_key, eqx_list, eq_type, dim_x, shared_pinn_outputs=kw["shared_pinn_outputs"],
+                                          output_transform=lambda i, o, p: jnp.cumsum(o) * p.eq_params["a"])[which]
+        plain = jinns.utils.create_PINN(net_key, eqx_list, eq_type, dim_x)
     a = dy(rng, 1, 3)
     nnp = u.init_params()
     P = Params(nn_params=nnp, eq_params={"a": jnp.array(a)})
@@ -82,6 +89,14 @@ def pinn_case(rng, cid):
     else:
         out = u(jnp.array(inputs[:1]), jnp.array(inputs[1:]), arg)
     fails = []
+    if coupled is not None:
+        call = (lambda net, prm: net(jnp.array(inputs), prm)) if eq_type != "nonstatio_PDE" else (lambda net, prm: net(jnp.array(inputs[:1]), jnp.array(inputs[1:]), prm))
+        Pc = Params(nn_params=coupled.init_params(), eq_params={"a": jnp.array(a)})
+        Pp = Params(nn_params=plain.init_params(), eq_params={"a": jnp.array(a)})
+        got = np.asarray(call(coupled, Pc)).ravel()
+        want = (np.cumsum(np.asarray(call(plain, Pp)).ravel()) * a)[osl[0]:osl[1]]
+        if got.shape != want.shape or not np.allclose(got, want, rtol=1e-12, atol=1e-12):
+            fails.append(f"shared outputs {osl} behind a transform that couples the components (running sum of all outputs, times a): the wrapper returned {got.tolist()}, transform-then-select gives {want.tolist()}")
     if out.ndim < 1:
         fails.append("the wrapper returned a 0-d array (no trailing component axis)")
     want_shape = ((osl[1] - osl[0]) if osl else nout,)
@@ -212,7 +227,7 @@ def generate(tier, seed, casedir, variant):
             cid += 1
     write_cases(casedir, "C10", "R_C10", variant, cases, chunk=60)
     return dict(meta=meta, oracle_violations=viol, evaluations=len(cases), distinct_nontrivial=len(cases), samples=samples, distribution=dist,
-                rule="random architectures: create_PINN (ODE / stationary / non-stationary, input / output transforms reading an equation parameter, shared outputs given as slices or integer indices (0 and negative ones included; either of the two networks is evaluated), bare network parameters, scalar or (1,) time), create_SPINN (d = 1..3, embedding size 1..3, 1..2 outputs, 1..3 batch points, four grid indices each), create_HYPERPINN (two designated parameters, scalars or 2x2 matrices, shared outputs, inner network with or without activation, input / output transforms reading the inputs and an equation parameter); weights exported as exact rationals; every case is non-trivial and distinct (fresh random weights)",
+                rule="random architectures: create_PINN (ODE / stationary / non-stationary, input / output transforms reading an equation parameter, shared outputs given as slices or integer indices (0 and negative ones included; either of the two networks is evaluated; also behind a transform coupling all outputs, oracle only), bare network parameters, scalar or (1,) time), create_SPINN (d = 1..3, embedding size 1..3, 1..2 outputs, 1..3 batch points, four grid indices each), create_HYPERPINN (two designated parameters, scalars or 2x2 matrices, shared outputs, inner network with or without activation, input / output transforms reading the inputs and an equation parameter); weights exported as exact rationals; every case is non-trivial and distinct (fresh random weights)",
                 oracle_checks=len(cases))
 
 
